@@ -98,6 +98,9 @@ def _convert_value(value: Any) -> Any:
     elif isinstance(value, HolographicValue):
         # Holographic patterns have no native JSON/YAML form: export their canonical text
         return value.raw_pattern
+    elif isinstance(value, dict):
+        # GH#287 P3: a block nested in META is parsed into a plain dict whose values are AST values
+        return {k: _convert_value(v) for k, v in value.items()}
     else:
         return value
 
@@ -155,6 +158,10 @@ def _format_markdown_value(value: Any) -> str:
     elif isinstance(value, HolographicValue):
         # I3: canonical pattern text, never the dataclass repr
         return value.raw_pattern
+    elif isinstance(value, dict):
+        # GH#287 P3: a block nested in META (plain dict of AST values) - same form as an inline map
+        pairs = [f"{k}: {_format_markdown_value(v)}" for k, v in value.items()]
+        return ", ".join(pairs)
     else:
         # Regular values are stringified directly
         return str(value)
